@@ -34,6 +34,8 @@ pub fn quad_how() -> BoxedStrategy<QuadHow> {
         2 => uint_ty().prop_map(QuadHow::NewSlice),
         2 => int_ty().prop_map(QuadHow::Collect),
         1 => prop_oneof![Just(4u8), Just(0), Just(2), Just(9), 0u8..40].prop_map(QuadHow::Builder),
+        2 => (int_ty(), any::<u8>()).prop_map(|(t, m)| QuadHow::CollectLoose(t, m)),
+        1 => any::<u8>().prop_map(QuadHow::BuilderPieces),
     ]
     .boxed()
 }
@@ -133,6 +135,12 @@ pub enum QvbStart {
     BuilderFromIter(IntTy, Vec<i128>),
     /// `QVector::from_iter` (no builder ops are applied afterwards)
     VectorFromIter(IntTy, Vec<i128>),
+    /// as `BuilderFromIter` / `VectorFromIter`, from an iterator with an inexact size hint
+    BuilderFromLooseIter(IntTy, Vec<i128>, u8),
+    VectorFromLooseIter(IntTy, Vec<i128>, u8),
+    /// `QVector::from_iter` over `len` pseudo-random u8 symbols in one call (exact iterator if
+    /// mode % 4 == 0, loose otherwise): single collects of more than 2^18 symbols
+    VectorFromPattern { seed: u64, len: u32, mode: u8 },
 }
 
 #[derive(Clone, Debug, PartialEq, Eq, Hash, Serialize, Deserialize)]
@@ -143,6 +151,10 @@ pub enum QvbOp {
     ExtendRun(IntTy, i128, u16),
     /// clone the builder and continue with the clone
     CloneSelf,
+    /// `extend` from an iterator with an inexact size hint
+    ExtendLoose(IntTy, Vec<i128>, u8),
+    /// `extend` with `len` pseudo-random u8 symbols in one call
+    ExtendPattern { seed: u64, len: u32, mode: u8 },
 }
 
 #[derive(Clone, Debug, PartialEq, Eq, Hash, Serialize, Deserialize)]
@@ -175,6 +187,23 @@ fn values() -> BoxedStrategy<Vec<i128>> {
     .boxed()
 }
 
+fn typed_loose<T: Clone + 'static>(v: Vec<T>, mode: u8) -> Box<dyn Iterator<Item = T>> {
+    crate::loose::loose_iter(v, mode)
+}
+
+fn pattern(seed: u64, len: u32) -> Vec<u8> {
+    let mut r = crate::util::Rng::new(seed);
+    (0..len).map(|_| (r.next_u64() >> 7) as u8).collect()
+}
+
+fn extend_typed_loose(b: &mut QVectorBuilder, ty: IntTy, vals: &[i128], mode: u8) {
+    use num_traits::AsPrimitive;
+    with_int_ty!(ty, T => {
+        let v: Vec<T> = vals.iter().map(|&x| { let y: T = x.as_(); y }).collect();
+        b.extend(typed_loose(v, mode));
+    })
+}
+
 fn extend_typed(b: &mut QVectorBuilder, ty: IntTy, vals: &[i128]) {
     use num_traits::AsPrimitive;
     with_int_ty!(ty, T => {
@@ -188,12 +217,17 @@ impl Prop for C13 {
     fn id(&self) -> &'static str { "C13" }
     fn strategy(&self, tier: Tier, _b: &str) -> BoxedStrategy<QvbCase> {
         let maxops = if tier == Tier::Quick { 12 } else { 40 };
+        let big: u32 = if tier == Tier::Quick { 300_000 } else { 1_200_000 };
+        let big_len = prop_oneof![12 => 0u32..3000, 1 => prop_oneof![Just(262_144u32), Just(262_145), 262_000u32..=263_000, 262_145u32..=big]];
         let start = prop_oneof![
             3 => Just(QvbStart::New),
             1 => Just(QvbStart::Default),
             2 => prop_oneof![Just(0usize), 0usize..2000, Just(256usize), Just(255), Just(257)].prop_map(QvbStart::WithCapacity),
             2 => (int_ty(), values()).prop_map(|(t, v)| QvbStart::BuilderFromIter(t, v)),
             2 => (int_ty(), values()).prop_map(|(t, v)| QvbStart::VectorFromIter(t, v)),
+            1 => (int_ty(), values(), any::<u8>()).prop_map(|(t, v, m)| QvbStart::BuilderFromLooseIter(t, v, m)),
+            1 => (int_ty(), values(), any::<u8>()).prop_map(|(t, v, m)| QvbStart::VectorFromLooseIter(t, v, m)),
+            1 => (any::<u64>(), big_len.clone(), any::<u8>()).prop_map(|(seed, len, mode)| QvbStart::VectorFromPattern { seed, len, mode }),
         ];
         let op = prop_oneof![
             3 => any::<u8>().prop_map(QvbOp::Push),
@@ -201,6 +235,8 @@ impl Prop for C13 {
             3 => (int_ty(), values()).prop_map(|(t, v)| QvbOp::Extend(t, v)),
             2 => (int_ty(), any::<i128>(), 1u16..600).prop_map(|(t, v, c)| QvbOp::ExtendRun(t, v, c)),
             1 => Just(QvbOp::CloneSelf),
+            2 => (int_ty(), values(), any::<u8>()).prop_map(|(t, v, m)| QvbOp::ExtendLoose(t, v, m)),
+            1 => (any::<u64>(), big_len, any::<u8>()).prop_map(|(seed, len, mode)| QvbOp::ExtendPattern { seed, len, mode }),
         ];
         (start, proptest::collection::vec(op, 0..=maxops))
             .prop_map(|(start, ops)| QvbCase { start, ops })
@@ -241,6 +277,19 @@ impl Prop for C13 {
                 kinds.insert("vector_from_iter");
                 with_int_ty!(*ty, T => vals.iter().map(|&x| { let y: T = x.as_(); y }).collect::<QVector>())
             }
+            QvbStart::VectorFromLooseIter(ty, vals, mode) => {
+                note_vals(vals, &mut outside);
+                model.extend(vals.iter().map(|&v| low2(v)));
+                kinds.insert("vector_from_iter");
+                with_int_ty!(*ty, T => typed_loose(vals.iter().map(|&x| { let y: T = x.as_(); y }).collect::<Vec<T>>(), *mode).collect::<QVector>())
+            }
+            QvbStart::VectorFromPattern { seed, len, mode } => {
+                let v = pattern(*seed, *len);
+                outside = true;
+                model.extend(v.iter().map(|&x| x & 3));
+                kinds.insert("vector_from_iter");
+                if mode % 4 == 0 { v.into_iter().collect::<QVector>() } else { typed_loose(v, *mode).collect::<QVector>() }
+            }
             start => {
                 let mut b = match start {
                     QvbStart::New => QVectorBuilder::new(),
@@ -252,7 +301,13 @@ impl Prop for C13 {
                         kinds.insert("builder_from_iter");
                         with_int_ty!(*ty, T => vals.iter().map(|&x| { let y: T = x.as_(); y }).collect::<QVectorBuilder>())
                     }
-                    QvbStart::VectorFromIter(..) => unreachable!(),
+                    QvbStart::BuilderFromLooseIter(ty, vals, mode) => {
+                        note_vals(vals, &mut outside);
+                        model.extend(vals.iter().map(|&v| low2(v)));
+                        kinds.insert("builder_from_iter");
+                        with_int_ty!(*ty, T => typed_loose(vals.iter().map(|&x| { let y: T = x.as_(); y }).collect::<Vec<T>>(), *mode).collect::<QVectorBuilder>())
+                    }
+                    QvbStart::VectorFromIter(..) | QvbStart::VectorFromLooseIter(..) | QvbStart::VectorFromPattern { .. } => unreachable!(),
                 };
                 for op in &c.ops {
                     match op {
@@ -282,6 +337,19 @@ impl Prop for C13 {
                             let vals = vec![*v; *cnt as usize];
                             extend_typed(&mut b, *ty, &vals);
                             model.extend(vals.iter().map(|&v| low2(v)));
+                        }
+                        QvbOp::ExtendLoose(ty, vals, mode) => {
+                            kinds.insert("extend");
+                            note_vals(vals, &mut outside);
+                            extend_typed_loose(&mut b, *ty, vals, *mode);
+                            model.extend(vals.iter().map(|&v| low2(v)));
+                        }
+                        QvbOp::ExtendPattern { seed, len, mode } => {
+                            kinds.insert("extend");
+                            outside = true;
+                            let v = pattern(*seed, *len);
+                            model.extend(v.iter().map(|&x| x & 3));
+                            if mode % 4 == 0 { b.extend(v) } else { b.extend(typed_loose(v, *mode)) }
                         }
                         QvbOp::CloneSelf => {
                             kinds.insert("clone");
